@@ -321,17 +321,39 @@ def rule_gate_eval(chk, pc):
     return True
 
 
+def text_flushers(f, pc):
+    """Functions of the preprocessor, other than the directive handler, that are handed the condition chain and call
+    apply_macros: where ordinary text is expanded and appended to the output."""
+    out = []
+    for b in f.crates[PP]["bodies"]:
+        if b.get("kind") not in ("Fn", "AssocFn") or "thir" not in b or "mir" not in b or (pc is not None and b["path"] == pc["path"]):
+            continue
+        if not any("ConditionChain" in (p_.get("ty") or "") for p_ in b.get("params") or []):
+            continue
+        if any(short(c.get("fn") or "") == "apply_macros" for c in F.exprs(b["thir"], "Call")):
+            out.append(b)
+    return out
+
+
 def rule_gate(chk):
     f = chk.facts
     pc = f.fn("preprocess_command", PP)
     if not pc:
         return
+    evaluated = False
     try:
-        rule_gate_eval(chk, pc)
+        evaluated = rule_gate_eval(chk, pc)
     except Exception as e:
         chk.note("directive model not evaluated: %r" % (e,))
-    cfg = M.Cfg(pc)
     is_skip = M.is_call_result("ConditionChain::is_active")
+    if not evaluated:
+        # (the rules about where in preprocess_command an effect sits are the fallback of the directive table)
+        rule_gate_sites(chk, f, pc, is_skip)
+    rule_gate_flush(chk, f, pc, is_skip)
+
+
+def rule_gate_sites(chk, f, pc, is_skip):
+    cfg = M.Cfg(pc)
     te, fe = M.guard_edges(cfg, is_skip)
     chk.floor("C11.floor/skip-tests", len(te), 6, "branches on `skip` in preprocess_command", where(pc))
     n = 0
@@ -393,9 +415,13 @@ def rule_gate(chk):
         chk.ob("C11.gate/error/" + s["variant"], ok, "raised only when not skipping" if ok else
                "PreprocessError::%s can be raised from inside an unselected branch" % s["variant"], where(pc, s.get("ln")))
     chk.floor("C11.floor/gate-instances", n, 14, "gated effect sites", where(pc))
-    # flush_normal
-    fl = f.fn("flush_normal", PP)
-    if chk.anchor("C11.anchor/flush_normal", fl, "flush_normal"):
+
+
+def rule_gate_flush(chk, f, pc, is_skip):
+    # the function that hands ordinary text on (flush_normal today; found by what it does, not by its name)
+    fls = text_flushers(f, pc)
+    chk.anchor("C11.anchor/flush_normal", fls[0] if fls else None, "the function that macro-expands ordinary text and appends it to the output (flush_normal)")
+    for fl in fls:
         c2 = M.Cfg(fl)
         ext = c2.calls("extend")
         chk.ob("C11.gate/flush/site", bool(ext), "output.extend site", where(fl), trivial=True)
@@ -765,7 +791,8 @@ def rule_defined(chk, shape=True):
             chk.ob("C11.defined/value", False, "anchor-missing or wrong: `if exists {LiteralInt(1)} else {LiteralInt(0)}`", where(asm))
         # callers: apply_macros(.., true, ..) only from the #if / #elif arms
         pc = f.fn("preprocess_command", PP)
-        fl = f.fn("flush_normal", PP)
+        fls_ = text_flushers(f, pc)
+        fl = fls_[0] if len(fls_) == 1 else None
         def flags(fn):
             # apply_macros(.., <apply_defined>, ..) calls of the function and of the private helpers it calls
             out = []
